@@ -36,6 +36,9 @@ FIXED = [
  ("F31", "C14", "097ea4b", "free_clusters unwrapped a refcount decrement that fails on corrupted refcounts and add_cache_slice added offsets without overflow check (panics on malformed tables)", "regress/C14/mutated_image-4.json"),
  ("F32", "C14", "211bd7f", "cache slice parameters that do not fit the image's cluster size hit a debug assertion / produced bogus geometry instead of an error", "regress/C14/C14-b200b5183831c3bf.json"),
  ("F33", "C12", "1ce9bb4", "flush_refcount wrote a dirty refcount-table block last and returned without a barrier; a mapping written right after could survive a crash while the table entry linking a newly created refcount block was lost (referenced cluster without refcount)", "regress/C12/reftable-block-not-synced-before-mappings.json"),
+ ("F34", "C19", "6e14084", "the tokio backend asserted that a write of more than 2 MiB completed in one call (panic) and returned short reads for reads above 2 MiB although the file had more data", "regress/C19/tokio-write-larger-than-2MiB.json"),
+ ("F35", "C20", "604e0e6", "rqcow2 convert raw->qcow2 failed (unwrapped alignment error) for raw files whose size is not a multiple of 512", "regress/C20/convert-odd-size.json"),
+ ("F36", "C20", "9c9d6b3", "check() reported a leak for valid images with preallocated zero clusters or an L1 table larger than the virtual size needs", "regress/C20/check-false-leak-zero-prealloc.json"),
  ("F11", "C03", "c069255", "writing to a zero-flagged cluster with a preallocation leaked the preallocated host cluster", "regress/C03/zero-prealloc-write-leaks.json"),
 ]
 KNOWN = [
